@@ -18,7 +18,7 @@ EXPLANATION = ("Harness c09.prog: an expression e1 = op1(root, X) (op1 from the 
                "every read is compared with the plain-Python evaluation of the same tree on the current inputs (value or exception "
                "class), exceptions must clear once inputs are valid again.")
 STUBS = []
-OUTSIDE = ["async pipelines (C10)", "expression depth > 2", "operands of types other than int / tuple / str",
+OUTSIDE = ["async pipelines (C10)", "expression depth > 2", "operands of types other than int / tuple / str (family E: containers as inputs of pipe / len only)",
            "symbolic second operands of non-linear operators (the Parameter operand is realised from [-2,2], constants from a pool)",
            "__matmul__ (no operand type in the sandbox supports it)",
            "operators applied to the result of .rx.where (it returns a bound function, not an rx)"]
@@ -220,6 +220,63 @@ def whereprog(form: int, h1: int, v1: int, h2: int, v2: int, h3: int, v3: int, h
 whereprog.ranges = lambda consts: dict(form=(0, 1), h1=(0, 4), h2=(0, 4), h3=(0, 4), h4=(0, 4), v1=(0, 2), v2=(0, 2), v3=(0, 2), v4=(0, 2))
 
 
+CONT = [{'a': 1, 'b': 2}, {'a': 1, 'c': 2}, {'a': 1, 'b': 3}, {'b': 2, 'a': 1}, [1, 2], [2, 1], [1, 2, 3], (1, 2), {1, 2}, {2, 3}]
+
+
+class PD(param.Parameterized):
+    d = param.Parameter(default=None)
+
+
+def contprog(src: int, h1: int, v1: int, h2: int, v2: int, h3: int, v3: int, h4: int, v4: int) -> None:
+    """Container-valued inputs (dicts of the same size with renamed keys / changed values / reordered, lists, tuples, sets):
+    e1 = sorted-keys pipe, e2 = len, e3 = membership; the input is an rx root (src 0) or a Parameter (src 1)."""
+    src = pick(src, 0, 1)
+    cur = [dict(CONT[0])]
+    if src == 0:
+        r = rx(dict(CONT[0]))
+        base = r
+
+        def setv(v):
+            r.rx.value = v
+    else:
+        with untraced():
+            pd = PD(d=dict(CONT[0]))
+        base = pd.param.d.rx()
+
+        def setv(v):
+            pd.d = v
+    e1 = base.rx.pipe(lambda c: sorted(c, key=repr))
+    e2 = base.rx.len()
+    e3 = base.rx.pipe(lambda c: 'c' in c)
+    seen = []
+    e1.rx.watch(lambda v: seen.append(v))
+    for step, (h, v) in enumerate(((h1, v1), (h2, v2), (h3, v3), (h4, v4))):
+        h = pick(h, 0, 3)
+        info = {'container_input': True, 'src': src, 'step': step, 'h': h}
+        if h == 0:
+            v = pick(v, 0, len(CONT) - 1)
+            nv = CONT[v]
+            nv = dict(nv) if isinstance(nv, dict) else (list(nv) if isinstance(nv, list) else nv)
+            n0 = len(seen)
+            old = sorted(cur[0], key=repr)
+            setv(nv)
+            cur[0] = nv
+            if sorted(nv, key=repr) != old:
+                check('C09.watch_called', len(seen) > n0 and seen[-1] == sorted(nv, key=repr), dict(info, new=repr(nv)))
+        elif h == 1:
+            check('C09.value', e1.rx.value == sorted(cur[0], key=repr), dict(info, got=repr(e1.rx.value), exp=repr(sorted(cur[0], key=repr))))
+        elif h == 2:
+            check('C09.value', e2.rx.value == len(cur[0]), dict(info, got=e2.rx.value, exp=len(cur[0])))
+        else:
+            check('C09.value', e3.rx.value == ('c' in cur[0]), dict(info, got=e3.rx.value))
+    info = {'container_input': True, 'src': src, 'step': 'final'}
+    check('C09.value', e1.rx.value == sorted(cur[0], key=repr) and e2.rx.value == len(cur[0]) and e3.rx.value == ('c' in cur[0]), info)
+
+
+contprog.ranges = lambda consts: dict(src=(0, 1), h1=(0, 3), h2=(0, 3), h3=(0, 3), h4=(0, 3),
+                                      v1=(0, len(CONT) - 1), v2=(0, len(CONT) - 1), v3=(0, len(CONT) - 1), v4=(0, len(CONT) - 1))
+
+
 def table(tier):
     """The operator forms exercised cover every __op__/__rop__ defined on rx (read from the class at run time)."""
     import param.reactive as R
@@ -283,6 +340,11 @@ def shards(tier):
         for h1 in range(5):
             out.append(dict(name='D_f%d_h%d' % (form, h1), module='harness.c09', fn='whereprog', consts=dict(form=form, h1=h1),
                             budget_s=45 if q else 300))
+    # (E) container-valued inputs
+    for src in (0, 1):
+        for v1 in range(len(CONT)):
+            out.append(dict(name='E_s%d_v%d' % (src, v1), module='harness.c09', fn='contprog', consts=dict(src=src, h1=0, v1=v1),
+                            budget_s=45 if q else 300))
     return out
 
 
@@ -292,6 +354,7 @@ def bounds(tier):
                 value_range_for_realised_inputs='[-1,1]' if q else '[-2,2]',
                 family_A='every operator form x operand kind; histories: ' + ('[update, read]' if q else 'all of length 3'),
                 family_D='expressions over the result of .rx.where (chain rooted at it; as a non-root operand): all histories of length 4 over {set branch, set condition, set other root, read e1, read e2}',
+                family_E='container-valued inputs (same-size dicts with renamed keys / changed values / reordered, lists, tuples, sets) through an rx root or a Parameter: histories of length 4 over {set input, read sorted keys, read len, read membership}',
                 family_C='error/recovery through a non-root operand: histories of length 4 over {set parameter, read e1}',
                 family_B='derived expression e2 = op2(e1, Y) built at a symbolic point; all histories of length 3',
                 history_ops=['set root', 'set parameter operand', 'read e1', 'derive (first time) and read e2'],
